@@ -98,6 +98,7 @@ struct APathEl {
 };
 struct APath {
     bool robust = false;
+    bool outline = false;  // non-simple path: written as the polygons of its outline (one axis-parallel segment, even widths)
     std::vector<APathEl> els;
     std::vector<P2> pts;
     ARep rep;
@@ -325,6 +326,41 @@ static inline Dump expected_dump(const ALib& L) {
         for (auto& p : c.paths)
             for (auto& e : p.els) {
                 Line l;
+                if (p.outline) {
+                    // the outline of one axis-parallel segment: a rectangle, lengthened by the end extensions
+                    int64_t h = e.width / 2;
+                    int64_t x0 = p.pts[0].first, y0 = p.pts[0].second, x1 = p.pts[1].first, y1 = p.pts[1].second;
+                    int64_t a0 = e.end == 0 ? 0 : e.end == 2 ? h : e.e0, a1 = e.end == 0 ? 0 : e.end == 2 ? h : e.e1;
+                    // to_polygons keeps the two spine points on each side and adds the cap points beyond them
+                    std::vector<P2> r;
+                    if (y0 == y1) {
+                        int64_t s = x1 > x0 ? 1 : -1;
+                        if (a0 > 0) r.push_back(P2(x0 - s * a0, y0 - h));
+                        r.push_back(P2(x0, y0 - h));
+                        r.push_back(P2(x1, y0 - h));
+                        if (a1 > 0) r.push_back(P2(x1 + s * a1, y0 - h));
+                        if (a1 > 0) r.push_back(P2(x1 + s * a1, y0 + h));
+                        r.push_back(P2(x1, y0 + h));
+                        r.push_back(P2(x0, y0 + h));
+                        if (a0 > 0) r.push_back(P2(x0 - s * a0, y0 + h));
+                    } else {
+                        int64_t s = y1 > y0 ? 1 : -1;
+                        if (a0 > 0) r.push_back(P2(x0 - h, y0 - s * a0));
+                        r.push_back(P2(x0 - h, y0));
+                        r.push_back(P2(x0 - h, y1));
+                        if (a1 > 0) r.push_back(P2(x0 - h, y1 + s * a1));
+                        if (a1 > 0) r.push_back(P2(x0 + h, y1 + s * a1));
+                        r.push_back(P2(x0 + h, y1));
+                        r.push_back(P2(x0 + h, y0));
+                        if (a0 > 0) r.push_back(P2(x0 + h, y0 - s * a0));
+                    }
+                    l.text = "POLY " + hex_u64(e.layer) + " " + hex_u64(e.type) + "|" + pts_text(canon_cycle(r)) + "|" +
+                             rep_text(p.rep.offsets()) + "|" + props_text(p.props);
+                    if (p.rep.negative_explicit()) l.cand.push_back({"oasis_write_repetition:negative-explicit", 2});
+                    if (props_recip(p.props)) l.cand.push_back({"oasis_write_real:reciprocal", 3});
+                    ls.push_back(l);
+                    continue;
+                }
                 int64_t hw = half_width_grid(e.width);
                 int64_t e0 = e.end == 0 ? 0 : e.end == 2 ? hw : e.e0;
                 int64_t e1 = e.end == 0 ? 0 : e.end == 2 ? hw : e.e1;
@@ -454,6 +490,21 @@ static inline Dump library_dump(const Library& lib, const PolySubst* subst = NUL
         }
         for (uint64_t i = 0; i < c->flexpath_array.count; i++) {
             FlexPath* p = c->flexpath_array[i];
+            if (!p->simple_path) {
+                // a non-simple path stands for the polygons of its outline (this is what the writer stores)
+                Array<Polygon*> outl = {};
+                p->to_polygons(false, 0, outl);
+                for (uint64_t k = 0; k < outl.count; k++) {
+                    Polygon* q = outl[k];
+                    ls.push_back("POLY " + hex_u64(get_layer(q->tag)) + " " + hex_u64(get_type(q->tag)) + "|" +
+                                 pts_text(canon_cycle(grid_points(q->point_array, scaling))) + "|" +
+                                 rep_text(rep_offsets_of(q->repetition, scaling)) + "|" + props_text(props_of(q->properties)));
+                    q->clear();
+                    free_allocation(q);
+                }
+                outl.clear();
+                continue;
+            }
             for (uint64_t e = 0; e < p->num_elements; e++) {
                 FlexPathElement* el = p->elements + e;
                 int64_t hw = to_grid(el->half_width_and_offset[0].u, scaling);
@@ -646,7 +697,7 @@ static inline void build_library(const ALib& L, Built& b) {
                 FlexPath* p = (FlexPath*)allocate_clear(sizeof(FlexPath));
                 p->num_elements = ne;
                 p->elements = (FlexPathElement*)allocate_clear(ne * sizeof(FlexPathElement));
-                p->simple_path = true;
+                p->simple_path = !ap.outline;
                 p->scale_width = true;
                 p->init(p0, widths.data(), offsets.data(), 0.1 / sc, tags.data());
                 for (size_t i = 0; i < ne; i++) {
@@ -1092,6 +1143,22 @@ struct Gen {
         }
         p.rep = rep(20, with_defect_classes && g.chance(20));
         p.props = props(20, with_defect_classes && g.chance(20));
+        if (!p.robust && g.chance(15)) {
+            // a non-simple path, written through to_polygons: one axis-parallel segment, even non-zero widths, extensions >= 0
+            p.outline = true;
+            int64_t len = 2 * g.range(2, 60) * (g.coin() ? 1 : -1);
+            P2 a = p.pts[0];
+            p.pts.clear();
+            p.pts.push_back(a);
+            p.pts.push_back(g.coin() ? P2(a.first + len, a.second) : P2(a.first, a.second + len));
+            for (auto& e : p.els) {
+                e.width = 2 * g.range(1, 40);
+                if (e.end == 3) {
+                    e.e0 = g.range(1, 60);
+                    e.e1 = g.range(1, 60);
+                }
+            }
+        }
         return p;
     }
     ALabel label() {
